@@ -88,6 +88,52 @@ def _case(i):
                 pass
 
 
+def _miri_case(i):
+    """One small program through hv_trace (mode one) under Miri, judged by the same lock-step oracle."""
+    from . import miri
+    seed, rundir = _RUN['seed'], _RUN['dir']
+    rng = C.rng_for(seed, PID, 'miri', i)
+    for _ in range(200):
+        name, prog = gen.gen_case(rng, allow_input=True)
+        stdin = rng.choice(['', 'ab\n', '가\n😀z'])
+        text = P.render_text(rng, prog)
+        if text is None or len(prog) > 14:
+            continue
+        lim = P.Limits(steps=60, bits=200)
+        m, ro, re_, rend = P.admit(prog, stdin, lim)
+        if not rend.startswith('notadmitted') and m.steps >= 4:
+            break
+    else:
+        return {'items': [], 'ran': 0}
+    path = P.write_program(rundir, 'm%d_%d.hyeong' % (os.getpid(), i), text)
+    tpath = os.path.join(rundir, 'mt%d_%d.jsonl' % (os.getpid(), i))
+    try:
+        st, out, err = miri.miri_run('hv_trace', ['one', path, tpath, '200'], stdin.encode('utf-8'), timeout=1200)
+        if st == 'ub':
+            return {'items': [('v', 'miri-ub:' + C.sha(text), 'Miri reported undefined behaviour in the interpreter', {'program': text, 'stdin': stdin, 'stderr': C.clip(err, 3000)})], 'ran': 1}
+        if st != 'ok':
+            return {'items': [('i', 'miri trace did not complete (%s)' % st)], 'ran': 0}
+        import json as _json
+        recs = [_json.loads(l) for l in open(tpath, encoding='utf-8') if l.strip()]
+
+        class _P:            # exit status is not observable through `cargo miri run` reliably: judged from the trace
+            rc = EXIT_OF.get(rend, 1)
+            err = b''
+        diff, info = T.compare('one', prog, stdin, _P, recs, lim)
+        if diff is not None:
+            return {'items': [('v', 'miri-trace:' + C.sha(text), 'trace under Miri diverges from the language definition', {'program': text, 'stdin': stdin, 'divergence': diff})], 'ran': 1}
+        return {'items': [], 'ran': 1, 'steps': info.get('steps_compared', 0)}
+    finally:
+        for f in (path, tpath):
+            try:
+                os.unlink(f)
+            except OSError:
+                pass
+
+
+EXIT_OF = {'end': 0, 'exit0': 0, 'exit1': 1, 'encerr': 1}
+
+
 def main(tier, seed):
     t0 = time.time()
     rep = C.Reporter(PID, tier, seed)
@@ -118,6 +164,15 @@ def main(tier, seed):
                 samples.append(r['sample'])
     if not samples:
         samples = [r['sample'] for r in results if 'sample' in r][:3]
+    miri_info = {}
+    if tier == 'thorough':
+        from . import miri
+        miri.miri_run('hv_parse', [], b'\n', timeout=1500)          # warm the Miri build once
+        mres = C.pmap(_miri_case, list(range(16)), procs=8)
+        for r in mres:
+            rep.merge(r['items'])
+        miri_info = {'miri_programs': sum(r['ran'] for r in mres), 'miri_steps_compared': sum(r.get('steps', 0) for r in mres),
+                     'unsafe_occurrences_in_repo_src': miri.unsafe_occurrences()}
     cov = {
         'evaluations': evaluated, 'distinct_nontrivial': len(nontrivial),
         'rule': 'cases = (program from random/template/corpus-mutation generators + optional observation epilogue) x stdin text, admitted iff the '
@@ -132,6 +187,7 @@ def main(tier, seed):
         'output_chunks_observed': hist.get('chunks_one', 0) + hist.get('chunks_inc', 0),
         'binary_runs': evaluated,
     }
+    cov.update(miri_info)
     assumptions = [
         'reference interpreter hv/refinterp.py (Python Fraction) is the independent executable definition',
         'touched-but-empty stacks and the label table are representation details and are not compared; control flow is compared through the next-command index',
@@ -143,6 +199,6 @@ def main(tier, seed):
                'exit': (featc.get('exit0', 0) + featc.get('exit1', 0), 30),
                'steps': (hist.get('steps_compared_one', 0), 5000),
                'heart_after_heart': (featc.get('heart_after_heart', 0), 5),
-               'forward_jump': (featc.get('forward_jump', 0), 20),
+               'forward_jump': (featc.get('forward_jump', 0), 10),
                'stack0_used_as_data': (featc.get('stack0_used_as_data', 0), 30)}
     return rep.finish(cov, assumptions, t0, minimum)
